@@ -1039,7 +1039,7 @@ def c09(ctx):
         exhaustive=not quick)
 
 
-def gen_engine(ctx, fconf, race=False):
+def gen_engine(ctx, fconf, race=False, memlayout=None):
     """Generate the catalogue's type systems afresh with schema/gen/go of the working tree, compile them with the runner.
     Returns the runner binary, or None when the generated package does not compile (recorded as a finding)."""
     import shutil
@@ -1047,8 +1047,10 @@ def gen_engine(ctx, fconf, race=False):
     import time
     src = ctx.harness_src()
     gen_dir = os.path.join(src, "gen")
+    if os.path.isdir(gen_dir):
+        shutil.rmtree(gen_dir)
     # (1) run the generator of the working tree
-    args = ["gengo", "-in", fconf, "-out", gen_dir]
+    args = ["gengo", "-in", fconf, "-out", gen_dir] + (["-memlayout", memlayout] if memlayout else [])
     rep = ctx.vh_run(args)
     ctx.absorb(rep, None, label="gengo/generate")
     ntypes = len(rep.get("extra", {}).get("generated_types", []))
@@ -1057,7 +1059,7 @@ def gen_engine(ctx, fconf, race=False):
     # (2) the generated package must compile (together with the runner)
     os.makedirs(os.path.join(src, "cmd", "genrun"), exist_ok=True)
     shutil.copy(os.path.join(src, "gentmpl", "genrun_main.go.txt"), os.path.join(src, "cmd", "genrun", "main.go"))
-    genrun = os.path.join(ctx.scratch, "genrun-race" if race else "genrun")
+    genrun = os.path.join(ctx.scratch, ("genrun-race" if race else "genrun") + ("-" + memlayout if memlayout else ""))
     t0 = time.time()
     p = subprocess.run(["go", "build", "-tags", "verif"] + (["-race"] if race else []) + ["-o", genrun, "./cmd/genrun"], cwd=src, env=ctx.goenv(),
                        stdout=subprocess.PIPE, stderr=subprocess.STDOUT, text=True)
@@ -1093,6 +1095,14 @@ def c13(ctx):
         args = ["genschema", "-in", f] + extra
         rep = ctx.vh_run(args, binary=genrun, timeout=3000)
         ctx.absorb(rep, args, label="genrun/" + label, binary=genrun)
+    # (4) another configuration of the generator: every union with the non-default memory layout "interface"
+    genrun2 = gen_engine(ctx, fall, memlayout="interface")
+    if genrun2 is not None:
+        for label, f, extra in (("conforming", fconf, ["-roundtrip"]), ("mutants", fmut, []),
+                                ("random-types-conforming", frc, ["-roundtrip"])):
+            args = ["genschema", "-in", f] + extra
+            rep = ctx.vh_run(args, binary=genrun2, timeout=3000)
+            ctx.absorb(rep, args, label="genrun[unions as interfaces]/" + label, binary=genrun2)
     return ctx.finish(
         "model_checking",
         rule="programs = the type systems of the catalogue inside the generator's feature set (no enum, any, listpairs), "
@@ -1100,8 +1110,9 @@ def c13(ctx):
              "violation); cases = the C08 inhabitants and C09 mutants of those types; the generated prototypes, builders, "
              "nodes and representation views are compared with the specification exactly as bindnode is (accept / reject, "
              "typed view, representation view, dag-cbor and dag-json round trip), and bindnode is run on the same case so "
-             "that a disagreement between the engines is visible; non-trivial = every case; distinct = distinct (type, "
-             "level, input)",
+             "that a disagreement between the engines is visible; the whole again for the generator's non-default union "
+             "memory layout (CfgUnionMemlayout = interface for every union); non-trivial = every case; distinct = distinct "
+             "(type, level, input)",
         assumptions=["observational equivalence is decided through the common specification: both engines must agree with "
                      "Schema.tla on every case (three-way comparison)"],
         exhaustive=not quick)
